@@ -134,6 +134,12 @@ class KernRun:
             except (SpecError, lower_pyx.LoweringError, KeyError) as e:
                 if outside_subset(e) and self.unlowered(rp, fn, str(e), only=only):
                     continue
+                # the code of a function that verified on the pinned tree (it has ledger obligations) was
+                # restructured so that the sidecar contract (loop invariants keyed by loop variable) no longer
+                # fits: its obligations can no longer be established -> reported, not a checker crash
+                if isinstance(e, SpecError) and self.unlowered(
+                        rp, fn, "the sidecar contract no longer fits the restructured code (%s)" % e, only=only):
+                    continue
                 rep.add(core.Obligation("%s/%s/vcgen" % (self.prop, eng.id_stem(low, fn)), core.ERROR,
                                         backend="kernvc",
                                         detail="VC generation failed (construct outside the subset or contract "
